@@ -398,11 +398,15 @@ impl GcManaged for ObjClosure {
     fn mark(&self) {
         self.function.mark();
         self.upvalues.mark();
+        // The module whose globals the code reads and writes (an embedding may keep a closure
+        // longer than the interpreter keeps the module: across a reset).
+        self.module.mark();
     }
 
     fn blacken(&self) {
         self.function.blacken();
         self.upvalues.blacken();
+        self.module.blacken();
     }
 }
 
